@@ -195,6 +195,8 @@ fn main() {
     sink.merge(struct_sweep(&run, &[&MSG_HANDSHAKE], &msgs, d, &sfx, 64, &no_extra));
     sink.merge(struct_sweep(&run, &[&MSG_HANDSHAKE], &cat::handshake_all_types(), run.tier.pick(0, 1), &sfx, 64, &no_extra));
 
+    sink.merge(struct_sweep(&run, &[&MSG_HANDSHAKE], &cat::handshake_many(), run.tier.pick(0, 1), &sfx, 32, &no_extra));
+
     // (2) body-level: the same catalogue without the 4-byte header through each pub body parser
     let mut by_type: std::collections::BTreeMap<u8, Vec<W>> = std::collections::BTreeMap::new();
     for m in &msgs {
@@ -346,7 +348,7 @@ fn main() {
     cov.insert("one_dimensional_sweep_cases".into(), json!(nsweeps));
     cov.insert("entry_points".into(), json!(all_targets().iter().map(|t| t.name).collect::<Vec<_>>()));
     cov.insert("rule".into(), json!(format!(
-        "struct: {} catalogue messages (17 variants over their boundary domains, 15 unknown types, all 256 type bytes) x every combination of <= {} deviations (each length field in {{0,1,true-1,true+1,max}}, every cut, 4 suffixes), at message level and - header stripped - through each of the 21 pub body parsers; complete sweeps of all 65536 versions / cipher ids, all 256 compression ids, session-id lengths, status types, key-update values, certificate types, bit patterns of the 32-bit lifetime; every string of length <= {} over a positional alphabet through parse_tls_message_handshake; hello frames with every tail of length <= {} over a 7-letter alphabet. Oracle: strict walker (Must / MustReject / Unspecified per DESIGN appendix D). Non-trivial: not cut inside the fixed header",
+        "struct: {} catalogue messages (17 variants over their boundary domains, 15 unknown types, all 256 type bytes, chains / DN lists / algorithm lists of 255..4000 elements) x every combination of <= {} deviations (each length field in {{0,1,true-1,true+1,max}}, every cut, 4 suffixes), at message level and - header stripped - through each of the 21 pub body parsers; complete sweeps of all 65536 versions / cipher ids, all 256 compression ids, session-id lengths, status types, key-update values, certificate types, bit patterns of the 32-bit lifetime; every string of length <= {} over a positional alphabet through parse_tls_message_handshake; hello frames with every tail of length <= {} over a 7-letter alphabet. Oracle: strict walker (Must / MustReject / Unspecified per DESIGN appendix D). Non-trivial: not cut inside the fixed header",
         nmsgs, d, n, tn)));
     let code = run.finish(
         &sink,
